@@ -78,4 +78,8 @@ def units(tier):
     vbar_reset = int(m.configurations.configurations.configs.get('reset_values', {}).get('VBAR', '0'), 0) if \
         m.configurations.configurations.configs else 0
     mu(A.take_reset, lambda st: EX.take_reset(st, vbar_reset), on='cpu')
+    # dependency units: C08 (the IT state is advanced where specified, saved in the SPSR and cleared on every entry) and C12
+    # (exception entry followed by the standard return: the round-trip lemma of C12 starts from the entry specification)
+    for u in out:
+        u.props = ['C11', 'C08', 'C12']
     return out
